@@ -48,7 +48,12 @@ static void do_produced(int n) {
           if (it % 4 == 0) { pr = (int)vt_randn(3); par = vt_random_cell(pr); if (it % 8 == 0) { H3Index pp[12]; getPentagons(pr, pp); par = pp[vt_randn(12)]; } ccr = 12 + (int)vt_randn(4); }
           int64_t sz; if (!cellToChildrenSize(par, ccr, &sz) && sz > 0) {
               int64_t ps[5] = {0, sz - 1, sz / 2, (int64_t)(vt_rand01() * (double)sz), (int64_t)(vt_rand01() * (double)sz)};
-              for (int q = 0; q < 5; q++) if (ps[q] >= 0 && ps[q] < sz && !childPosToCell(ps[q], par, ccr, &o)) ev_prod("childPosToCell", o); } }
+              for (int q = 0; q < 5; q++) if (ps[q] >= 0 && ps[q] < sz && !childPosToCell(ps[q], par, ccr, &o)) ev_prod("childPosToCell", o);
+              /* closure also for scalar arguments outside the domain (the cells given are valid): whatever comes back with E_SUCCESS must be a valid cell */
+              int64_t full = 1; for (int q = pr; q < ccr && full < ((int64_t)1 << 50); q++) full *= 7;
+              int64_t bad[5] = {sz, sz + 1, full - 1, sz + (int64_t)(vt_rand01() * (double)(full - sz + 1)), -1};
+              for (int q = 0; q < 5; q++) { o = 0; if (!childPosToCell(bad[q], par, ccr, &o)) ev_prod("childPosToCell", o); } } }
+        { CoordIJ ij = {(int)vt_randn(41) - 20, (int)vt_randn(41) - 20}; if (vt_randn(8) == 0) { ij.i *= 100000; ij.j *= 77777; } o = 0; if (!localIjToCell(h, &ij, 0, &o)) ev_prod("localIjToCell", o); }
         int k = (int)vt_randn(4);
         int64_t dsz; maxGridDiskSize(k, &dsz);
         H3Index *d = calloc(dsz, sizeof(H3Index)); int *dist = calloc(dsz, sizeof(int));
